@@ -7,7 +7,7 @@ import random
 import numpy as np
 
 import implrun as R
-from ctor_args import CTOR, configurations
+from ctor_args import CTOR, configurations, channel_configurations
 
 A = R.A
 DICOM = {'PixelSpacing': (0.7, 0.4), 'RescaleIntercept': -1024.0, 'RescaleSlope': 1.0, 'ConvolutionKernel': 'STANDARD',
@@ -140,6 +140,12 @@ def make_cases(rng, tier):
                               'kps': rng.choice(['list', 'tuple']) if supports_kps else None,
                               'then': rng.choice([[], [], ['HorizontalFlip']]),
                               'spacing': ['tuple', 'ndarray', 'list'][len(cases) % 3]})
+        # configurations that address the channels (per-channel bit depths): on an image with that many channels
+        for ch, kw in channel_configurations(name):
+            for lay in (['c', 'readonly'] if tier == 'quick' else ['c', 'view', 'fortran', 'readonly']):
+                cases.append({'name': name, 'kw': jsonable(kw), 'shape': [12, 10, 8], 'seed': R.pick_seed(rng),
+                              'image': spec.get('image', 'uint8'), 'layout': lay, 'channels': ch, 'boxes': None, 'kps': None,
+                              'then': [], 'spacing': 'tuple'})
     return cases
 
 
